@@ -304,7 +304,12 @@ func validateMutationAtomic(atype string, mutator Mutator, value interface{}) er
 		return fmt.Errorf("atomictype %s does not support mutation", atype)
 	case TypeReal:
 		switch mutator {
-		case MutateOperationAdd, MutateOperationSubtract, MutateOperationMultiply, MutateOperationDivide:
+		case MutateOperationDivide:
+			if value.(float64) == 0 {
+				return &DomainError{details: "division by zero"}
+			}
+			return nil
+		case MutateOperationAdd, MutateOperationSubtract, MutateOperationMultiply:
 			return nil
 		default:
 			return fmt.Errorf("wrong mutator for real type %s", mutator)
